@@ -13,7 +13,13 @@ import (
 	"github.com/spikeekips/mitum/isaac"
 	isaacdatabase "github.com/spikeekips/mitum/isaac/database"
 	isaacstates "github.com/spikeekips/mitum/isaac/states"
+	"github.com/spikeekips/mitum/launch"
 	leveldbstorage "github.com/spikeekips/mitum/storage/leveldb"
+	"github.com/spikeekips/mitum/util/encoder"
+	jsonenc "github.com/spikeekips/mitum/util/encoder/json"
+	"github.com/spikeekips/mitum/util/hint"
+	goleveldbopt "github.com/syndtr/goleveldb/leveldb/opt"
+	goleveldbstorage "github.com/syndtr/goleveldb/leveldb/storage"
 	"pgregory.net/rapid"
 	"verif/internal/ev"
 	"verif/internal/gen"
@@ -139,6 +145,180 @@ type c08Sent struct {
 	Fact   string
 	Node   string
 	Height int64
+	bl     base.Ballot // the ballot that reached the network function
+}
+
+func (s c08Sent) String() string {
+	return fmt.Sprintf("{%s sc=%v fact=%s by %s}", s.Point, s.SC, s.Fact, s.Node)
+}
+
+// ---- encoder sets of a restarted node (version skew / roll back / missing hinter registration)
+
+// c08HintGroups are the hinters a ballot record may need beyond the plain INIT/ACCEPT ballot types; action
+// restartWithEncoders re-opens the pool with an encoder set that lacks a drawn subset of them.
+var c08HintGroups = []struct {
+	name  string
+	hints []hint.Hint
+}{
+	{"empty-proposal-init-fact", []hint.Hint{isaac.EmptyProposalINITBallotFactHint}},
+	{"empty-operations-accept-fact", []hint.Hint{isaac.EmptyOperationsACCEPTBallotFactHint}},
+	{"not-processed-accept-fact", []hint.Hint{isaac.NotProcessedACCEPTBallotFactHint}},
+	{"suffrage-confirm-fact", []hint.Hint{isaac.SuffrageConfirmBallotFactHint}},
+	{"expel-operation", []hint.Hint{isaac.SuffrageExpelOperationHint, isaac.SuffrageExpelFactHint}},
+	{"expel-voteproof", []hint.Hint{isaac.INITExpelVoteproofHint, isaac.ACCEPTExpelVoteproofHint}},
+	{"stuck-voteproof", []hint.Hint{isaac.INITStuckVoteproofHint, isaac.ACCEPTStuckVoteproofHint}},
+}
+
+type c08EncSet struct {
+	key  string // "" = the full set
+	encs *encoder.Encoders
+	enc  *jsonenc.Encoder
+}
+
+var (
+	c08EncMu    sync.Mutex
+	c08EncCache = map[string]*c08EncSet{}
+)
+
+// c08Encoders builds (once per subset) an encoder set with every launch hinter except the named groups; the empty subset
+// is the full set a node normally runs with.
+func c08Encoders(missing []string) *c08EncSet {
+	sort.Strings(missing)
+	key := strings.Join(missing, ",")
+
+	c08EncMu.Lock()
+	defer c08EncMu.Unlock()
+
+	if es, ok := c08EncCache[key]; ok {
+		return es
+	}
+
+	skip := map[hint.Type]bool{}
+
+	for _, g := range c08HintGroups {
+		for _, m := range missing {
+			if m == g.name {
+				for _, ht := range g.hints {
+					skip[ht.Type()] = true
+				}
+			}
+		}
+	}
+
+	enc := jsonenc.NewEncoder()
+	encs := encoder.NewEncoders(enc, enc)
+
+	all := append(append([]encoder.DecodeDetail(nil), launch.Hinters...), launch.SupportedProposalOperationFactHinters...)
+	for _, d := range all {
+		if skip[d.Hint.Type()] {
+			continue
+		}
+
+		if err := encs.AddDetail(d); err != nil {
+			panic(err)
+		}
+	}
+
+	es := &c08EncSet{key: key, encs: encs, enc: enc}
+	c08EncCache[key] = es
+
+	return es
+}
+
+var (
+	c08ReadMu    sync.Mutex
+	c08ReadCache = map[string]bool{}
+)
+
+// readable: can a node running with this encoder set read the ballot from its encoded form (what the network layer
+// does with an incoming ballot and what the pool does with a kept record)? Decided with the encoder alone, not with the pool.
+func (es *c08EncSet) readable(bl base.Ballot) bool {
+	k := es.key + "|" + fmt.Sprintf("%x", bl.HashBytes())
+
+	if w, ok := bl.(base.HasExpels); ok {
+		for _, op := range w.Expels() {
+			k += "|" + op.Hash().String()
+		}
+	}
+
+	c08ReadMu.Lock()
+	v, found := c08ReadCache[k]
+	c08ReadMu.Unlock()
+
+	if found {
+		return v
+	}
+
+	_, full := gen.Encoders()
+
+	b, err := full.Marshal(bl)
+	if err != nil {
+		panic(err)
+	}
+
+	i, err := es.enc.Decode(b)
+	_, isballot := i.(base.Ballot)
+	v = err == nil && isballot
+
+	c08ReadMu.Lock()
+	c08ReadCache[k] = v
+	c08ReadMu.Unlock()
+
+	return v
+}
+
+// ---- ballots with the fact types the handlers use when there is no proposal / nothing to process
+
+var (
+	c08BallotMu    sync.Mutex
+	c08BallotCache = map[string]bbCached{}
+)
+
+// ballot: bbWorld's kinds plus initEmpty (EmptyProposalINITBallotFact), acceptEmptyOps (EmptyOperationsACCEPTBallotFact)
+// and acceptNotProcessed (NotProcessedACCEPTBallotFact). These facts carry a random component by construction, so they are
+// made once per process and descriptor.
+func (c *c08World) ballot(d bbBallotDesc) (base.Ballot, bool) {
+	switch d.Kind {
+	case "initEmpty", "acceptEmptyOps", "acceptNotProcessed":
+	default:
+		return c.w.cachedBallot(d)
+	}
+
+	k := fmt.Sprintf("%d|%+v", c.w.n, d)
+
+	c08BallotMu.Lock()
+	defer c08BallotMu.Unlock()
+
+	if cb, found := c08BallotCache[k]; found {
+		return cb.bl, cb.valid
+	}
+
+	node := c.w.locals[d.Node]
+	point := bbPoint(d.Height, d.Round)
+	proposal := gen.H(fmt.Sprintf("prop-%d-%d-0", d.Height, d.Round))
+
+	var bl base.Ballot
+
+	switch d.Kind {
+	case "initEmpty":
+		var vp base.Voteproof
+		if d.Round == 0 {
+			vp = c.w.acceptVP(d.Height - 1)
+		} else {
+			vp = c.w.drawACCEPTVP(d.Height, d.Round-1)
+		}
+
+		bl = isaac.NewINITBallot(vp, gen.SignINIT(isaac.NewEmptyProposalINITBallotFact(point, bbBlock(d.Height-1), proposal), node), nil)
+	case "acceptEmptyOps":
+		bl = isaac.NewACCEPTBallot(c.w.initVP(d.Height, d.Round), gen.SignACCEPT(isaac.NewEmptyOperationsACCEPTBallotFact(point, proposal), node), nil)
+	default:
+		bl = isaac.NewACCEPTBallot(c.w.initVP(d.Height, d.Round), gen.SignACCEPT(isaac.NewNotProcessedACCEPTBallotFact(point, proposal), node), nil)
+	}
+
+	cb := bbCached{bl: bl, valid: bl.IsValid(gen.NetworkID) == nil}
+	c08BallotCache[k] = cb
+
+	return cb.bl, cb.valid
 }
 
 func (s c08Sent) key() string { return fmt.Sprintf("%s/sc=%v", s.Point, s.SC) }
@@ -171,38 +351,63 @@ type c08Tick struct{ from, to int }
 
 type c08World struct {
 	w     *bbWorld // reused for ballot construction only (its box is not used)
+	n     int
+	state isaacstates.StateType
+	str   goleveldbstorage.Storage // what is on "disk": survives restarts
+	lst   *leveldbstorage.Storage
+	es    *c08EncSet // the encoder set of the running incarnation
 	st    *isaacstates.States
 	pool  *isaacdatabase.TempPool
 	fpool *c08FaultPool
 	gate  *c08Gate
 	mimic func(base.Ballot)
 	mu    sync.Mutex
-	sent  []c08Sent
+	sent  []c08Sent // the network: everything the local node ever broadcast, over all incarnations
 	local base.LocalNode
 }
 
 func newC08World(n int, state isaacstates.StateType, failAt int) (*c08World, error) {
-	encs, enc := gen.Encoders()
+	c := &c08World{
+		w:     newBBWorld(n, 67, n), // the box's "local" is the foreign node: unused here
+		n:     n,
+		state: state,
+		str:   goleveldbstorage.NewMemStorage(),
+		local: gen.Local(40), // the node under test; not one of the ballot senders
+		fpool: &c08FaultPool{failAt: failAt},
+	}
 
-	w := newBBWorld(n, 67, n) // the box's "local" is the foreign node: unused here
-	local := gen.Local(40)    // the node under test; not one of the ballot senders
-
-	pool, err := isaacdatabase.NewTempPool(leveldbstorage.NewMemStorage(), encs, enc, 0)
-	if err != nil {
+	if err := c.boot(c08Encoders(nil)); err != nil {
 		return nil, err
 	}
 
-	c := &c08World{w: w, pool: pool, local: local}
+	return c, nil
+}
 
-	fpool := &c08FaultPool{TempPool: pool, failAt: failAt}
-	c.fpool = fpool
+// boot starts one incarnation of the node on the storage: leveldb, the real TempPool, the real DefaultBallotBroadcaster and a
+// States in Syncing/Broken, all with the given encoder set.
+func (c *c08World) boot(es *c08EncSet) error {
+	// small buffers: a case writes a handful of records, and opening with the default 4 MiB write buffer dominated the run time
+	lst, err := leveldbstorage.NewStorage(c.str, &goleveldbopt.Options{WriteBuffer: 64 << 10, BlockCacheCapacity: 64 << 10})
+	if err != nil {
+		return err
+	}
 
-	inner := isaacstates.NewDefaultBallotBroadcaster(local.Address(), fpool, func(bl base.Ballot) error {
+	pool, err := isaacdatabase.NewTempPool(lst, es.encs, es.enc, 0)
+	if err != nil {
+		return err
+	}
+
+	c.lst, c.pool, c.es = lst, pool, es
+
+	// the injected write fault counts pool writes over the whole history
+	c.fpool = &c08FaultPool{TempPool: pool, failAt: c.fpool.failAt, calls: c.fpool.calls, failed: c.fpool.failed}
+
+	inner := isaacstates.NewDefaultBallotBroadcaster(c.local.Address(), c.fpool, func(bl base.Ballot) error {
 		c.mu.Lock()
 		c.sent = append(c.sent, c08Sent{
 			Point: bl.Point().String(), SC: bbIsSC(bl.SignFact().Fact()),
 			Fact: bl.SignFact().Fact().Hash().String(), Node: bl.SignFact().Node().String(),
-			Height: int64(bl.Point().Height()),
+			Height: int64(bl.Point().Height()), bl: bl,
 		})
 		c.mu.Unlock()
 
@@ -216,16 +421,34 @@ func newC08World(n int, state isaacstates.StateType, failAt int) (*c08World, err
 	args.IsInSyncSourcePoolFunc = func(base.Address) bool { return true }
 	args.IntervalBroadcastBallot = func() time.Duration { return time.Hour }
 
-	st, err := isaacstates.NewStates(gen.NetworkID, local, args)
+	st, err := isaacstates.NewStates(gen.NetworkID, c.local, args)
 	if err != nil {
-		return nil, err
+		return err
 	}
 
-	st.VerifSetCurrent(&isaacstates.VerifStubHandler{S: state})
+	st.VerifSetCurrent(&isaacstates.VerifStubHandler{S: c.state})
 	c.st = st
 	c.mimic = st.VerifMimicBallotFunc()
 
-	return c, nil
+	return nil
+}
+
+func (c *c08World) shutdown() error {
+	if err := c.pool.Close(); err != nil {
+		return err
+	}
+
+	return c.lst.Close()
+}
+
+// restartWithEncoders: the node process ends in a quiescent moment (pool and leveldb closed) and a new one starts on the
+// same storage with an encoder set that lacks the named hinter groups (none = plain restart).
+func (c *c08World) restartWithEncoders(missing []string) error {
+	if err := c.shutdown(); err != nil {
+		return err
+	}
+
+	return c.boot(c08Encoders(missing))
 }
 
 func TestC08(t *testing.T) {
@@ -235,15 +458,20 @@ func TestC08(t *testing.T) {
 		"each case delivers 2..6 real IsValid ballots of 2..4 remote nodes concurrently to the mimic-ballot function (same stage point with different facts, same fact from different nodes, " +
 		"different stage points, older heights, suffrage-confirm vs ordinary) in 1..3 phases (a later phase often returns to the still-open stage point of the previous one); the harness gate holds each delivery right after its pool lookup and releases them in a drawn order; " +
 		"optionally the local node also broadcasts a ballot of its own for one of the points (first-made or re-made with another proposal), optionally one of the first pool writes fails (injected storage fault); " +
-		"action cleanerTick (hook H4: one round of the pool's periodic cleaner daemon) runs between two phases or concurrently with the deliveries of a phase. " +
-		"Oracle: per (stage point, suffrage-confirm flag) the ballots signed by the local node that reached the network function carry at most one fact; a cleaner round starts a new epoch only for the stage points " +
+		"action cleanerTick (hook H4: one round of the pool's periodic cleaner daemon) runs between two phases or concurrently with the deliveries of a phase; " +
+		"action restartWithEncoders between two phases: pool and leveldb are closed and a new incarnation (leveldb, TempPool, DefaultBallotBroadcaster, States) is started on the same storage with an encoder set that lacks a drawn subset of " +
+		"the hinter groups a ballot record may need (empty-proposal / empty-operations / not-processed facts, suffrage-confirm fact, expel operation, expel voteproofs, stuck voteproofs; the empty subset is a plain restart); " +
+		"after a restart only ballots the running encoder set can decode from their wire form are delivered; deliveries include ballots with EmptyProposalINIT / EmptyOperationsACCEPT / NotProcessedACCEPT facts. " +
+		"Oracle: per (stage point, suffrage-confirm flag) the ballots signed by the local node that reached the network function over the whole history (all incarnations) carry at most one fact; a cleaner round starts a new epoch only for the stage points " +
 		"at or below (newest height in the pool - 3), which the cleaner is specified to forget. non-trivial = >=2 deliveries for one stage point with different facts were inside the window together, or a different fact " +
-		"was offered for a stage point inside the kept heights whose ballot was broadcast before a cleaner round")
+		"was offered for a stage point inside the kept heights whose ballot was broadcast before a cleaner round, or a different fact was offered for a stage point whose ballot was broadcast by an earlier incarnation")
 	r.Floor(20)
 	r.Assume("the real consensus handlers are not booted: their check-pool-then-broadcast paths are represented by the direct Broadcast of a locally made ballot",
 		"the gate's grace period (30 ms) only affects speed; a serialising implementation passes",
 		"the cleaner daemon's 33 minute ticker is replaced by direct calls of its three steps (hook H4); the pool cleaner is specified to keep the newest 3 heights, so a stage point at or below newest-3 "+
-			"is outside what the node can remember: a second fact there after a cleaner round is not asserted (the network finalised those heights long ago)")
+			"is outside what the node can remember: a second fact there after a cleaner round is not asserted (the network finalised those heights long ago)",
+		"a restart happens in a quiescent moment (no delivery in flight); a node whose encoder set cannot decode a ballot never gets it from the network layer, so such ballots are not delivered to it; "+
+			"a kept record the running encoder set cannot decode still counts as kept: the fact it carries is on the network already")
 
 	r.Checks(100, 5000)
 	r.ShrinkTime(20 * time.Second)
@@ -260,7 +488,7 @@ func TestC08(t *testing.T) {
 			rt.Fatalf("world: %v", err)
 		}
 
-		defer c.pool.Close()
+		defer func() { _ = c.shutdown() }()
 
 		phases := rapid.IntRange(1, 3).Draw(rt, "phases")
 
@@ -268,7 +496,12 @@ func TestC08(t *testing.T) {
 
 		conflictInWindow := false
 		conflictAcrossTick := false
+		conflictAcrossRestart := false
+		conflictUnreadableKept := false
 		ticksDone, tickRemoved := 0, 0
+		restartsPlain, restartsSkew, undeliverable := 0, 0, 0
+
+		var restartAt []int // lengths of the broadcast log at the restarts
 
 		var (
 			ticks    []c08Tick
@@ -329,6 +562,41 @@ func TestC08(t *testing.T) {
 				tick = rapid.SampledFrom([]int{0, 0, 0, 2}).Draw(rt, "cleanerTick")
 			}
 
+			// ---- action restartWithEncoders (between two phases): 0 none, 1 plain restart, 2 restart with a drawn subset of the hinter groups missing
+			if ph > 0 {
+				switch rapid.SampledFrom([]int{0, 0, 0, 1, 2, 2, 2, 2}).Draw(rt, "restart") {
+				case 1:
+					if err := c.restartWithEncoders(nil); err != nil {
+						rt.Fatalf("restart: %v", err)
+					}
+
+					restartsPlain++
+					restartAt = append(restartAt, len(snapshot()))
+					history = append(history, "restartWithEncoders(missing=[])")
+				case 2:
+					var missing []string
+
+					for _, g := range c08HintGroups {
+						if rapid.Bool().Draw(rt, "missing:"+g.name) {
+							missing = append(missing, g.name)
+						}
+					}
+
+					if err := c.restartWithEncoders(missing); err != nil {
+						rt.Fatalf("restart: %v", err)
+					}
+
+					if len(missing) > 0 {
+						restartsSkew++
+					} else {
+						restartsPlain++
+					}
+
+					restartAt = append(restartAt, len(snapshot()))
+					history = append(history, fmt.Sprintf("restartWithEncoders(missing=%v)", missing))
+				}
+			}
+
 			if tick == 1 {
 				removed, err := c.cleanerTick()
 				if err != nil {
@@ -356,7 +624,7 @@ func TestC08(t *testing.T) {
 			for i := 0; i < k; i++ {
 				d := bbBallotDesc{Height: fh, Round: fr, ExpelBy: "full", Node: rapid.IntRange(0, n-1).Draw(rt, "node")}
 
-				switch rapid.SampledFrom([]int{0, 1, 2, 3, 4, 5, 6, 6, 6, 7, 8, 9, 10}).Draw(rt, "variant") {
+				switch rapid.SampledFrom([]int{0, 1, 2, 3, 4, 5, 6, 6, 6, 7, 7, 8, 9, 10, 11, 11}).Draw(rt, "variant") {
 				case 0, 1, 2:
 					d.Kind = fstage
 				case 3, 4, 5:
@@ -366,6 +634,13 @@ func TestC08(t *testing.T) {
 					d.Kind = rapid.SampledFrom([]string{"sc", "scX"}).Draw(rt, "scKind")
 				case 7:
 					d.Kind = map[string]string{"init": "initExpel", "accept": "acceptExpel"}[fstage]
+				case 11:
+					// the fact types the handlers use when there is no proposal / nothing to process
+					if fstage == "init" {
+						d.Kind = "initEmpty"
+					} else {
+						d.Kind = rapid.SampledFrom([]string{"acceptEmptyOps", "acceptNotProcessed"}).Draw(rt, "emptyKind")
+					}
 				case 10:
 					// a late ballot of an older height: around the edge of what the cleaner keeps
 					d.Height = int64(rapid.SampledFrom([]int{29, 31, 32}).Draw(rt, "oldHeight"))
@@ -384,10 +659,20 @@ func TestC08(t *testing.T) {
 			var used []bbBallotDesc
 
 			for _, d := range descs {
-				if bl, ok := c.w.cachedBallot(d); ok {
-					bls = append(bls, bl)
-					used = append(used, d)
+				bl, ok := c.ballot(d)
+				if !ok {
+					continue
 				}
+
+				// the network layer of this incarnation decodes an incoming ballot with its own encoder set
+				if !c.es.readable(bl) {
+					undeliverable++
+
+					continue
+				}
+
+				bls = append(bls, bl)
+				used = append(used, d)
 			}
 
 			if len(bls) < 1 {
@@ -435,6 +720,34 @@ func TestC08(t *testing.T) {
 				k := fmt.Sprintf("%s/sc=%v", bl.Point(), bbIsSC(bl.SignFact().Fact()))
 				if fs := preTick[k]; len(fs) > 0 && !fs[bl.SignFact().Fact().Hash().String()] {
 					conflictAcrossTick = true
+				}
+			}
+
+			// a different fact offered for a stage point whose ballot was broadcast by an earlier incarnation (and is still to be
+			// remembered); is the kept ballot one the running encoder set cannot read?
+			if len(restartAt) > 0 {
+				before := snapshot()
+				last := restartAt[len(restartAt)-1]
+
+				for _, bl := range offered {
+					k := fmt.Sprintf("%s/sc=%v", bl.Point(), bbIsSC(bl.SignFact().Fact()))
+
+					for i, s := range before {
+						if i >= last || i < epoch[k] || s.Node != localStr || s.key() != k {
+							continue
+						}
+
+						// the mimic path signs the fact of the incoming ballot (empty-proposal / empty-operations facts are re-made)
+						if s.Fact != bl.SignFact().Fact().Hash().String() {
+							conflictAcrossRestart = true
+
+							if !c.es.readable(s.bl) {
+								conflictUnreadableKept = true
+							}
+						}
+
+						break
+					}
 				}
 			}
 
@@ -570,16 +883,31 @@ func TestC08(t *testing.T) {
 					}
 				}
 
+				// the first fact was broadcast by an earlier incarnation of the node and the different one after a restart
+				for _, at := range restartAt {
+					if first[k] < at && second[k] >= at {
+						if sig != "equivocation-after-pool-clean" {
+							sig = "equivocation-after-restart"
+						}
+
+						if !c.es.readable(sent[first[k]].bl) {
+							sig = "equivocation-kept-ballot-unreadable-after-restart"
+						}
+					}
+				}
+
 				r.Violation(rt, sig, "the local node broadcast %d different ballot facts for %s: %v\n  history:\n    %s\n  broadcast log: %v",
 					len(fs), k, bbSortedKeys(fs), strings.Join(history, "\n    "), sent)
 			}
 		}
 
-		nontrivial := conflictInWindow || conflictAcrossTick
+		nontrivial := conflictInWindow || conflictAcrossTick || conflictAcrossRestart
 
 		r.Case(fmt.Sprintf("fault@%d;", failAt)+strings.Join(history, ";"), nontrivial, fmt.Sprintf("state:%s", state), fmt.Sprintf("conflictInWindow:%v", conflictInWindow),
 			fmt.Sprintf("conflictAcrossCleanerTick:%v", conflictAcrossTick), fmt.Sprintf("cleanerTicks:%d", ticksDone), fmt.Sprintf("cleanerRemovedSomething:%v", tickRemoved > 0),
-			fmt.Sprintf("poolFaultHit:%v", c.fpool.failed > 0))
+			fmt.Sprintf("poolFaultHit:%v", c.fpool.failed > 0), fmt.Sprintf("restartsPlain:%d", restartsPlain), fmt.Sprintf("restartsWithMissingHinters:%d", restartsSkew),
+			fmt.Sprintf("conflictAcrossRestart:%v", conflictAcrossRestart), fmt.Sprintf("conflictWithUnreadableKeptBallot:%v", conflictUnreadableKept),
+			fmt.Sprintf("undeliverableSkipped:%v", undeliverable > 0))
 
 		if nontrivial && r.WantSample() {
 			c.mu.Lock()
